@@ -1,11 +1,17 @@
 //! One module per property; `all()` is the registry used by the CLI and the fuzz targets.
 use crate::runner::PropDef;
 
+pub mod c04;
+pub mod c05;
 pub mod c06;
 pub mod c07;
+pub mod c08;
+pub mod c09;
+pub mod c10;
 pub mod c12;
 pub mod c13;
 pub mod c14;
+pub mod c15;
 
 pub const TRUSTED: &[&str] = &[
     "rustc / std",
@@ -16,7 +22,7 @@ pub const TRUSTED: &[&str] = &[
 ];
 
 pub fn all() -> Vec<PropDef> {
-    vec![c06::def(), c07::def(), c12::def(), c13::def(), c14::def()]
+    vec![c04::def(), c05::def(), c06::def(), c07::def(), c08::def(), c09::def(), c10::def(), c12::def(), c13::def(), c14::def(), c15::def()]
 }
 
 pub fn find(id: &str) -> Option<PropDef> {
